@@ -131,6 +131,18 @@ def judge(req, obs):
             hs = hooks_for.get(e.get("authz"), [])
             ctype = e.get("chall_type")
             mine = [h for h in hs if h["tag"] == "chal-" + str(ctype)]
+            if e.get("token") is not None and e.get("authz") in authzs:
+                # the hook run that carried *this* challenge's token (an authorization may list several challenges of one type)
+                want = expected_proof(str(ctype), e["token"], thumbs.get(authzs[e["authz"]]["acct"], "?"))
+                exact = []
+                for h in mine:
+                    ha = dict(x.split("=", 1) for x in h.get("argv", []) if "=" in x)
+                    if ha.get("proof") == want["proof"] and ha.get("file_name", "") == want["file_name"]:
+                        exact.append(h)
+                if mine and not exact and len([c for c in authzs[e["authz"]]["challs"] if c["type"] == ctype]) > 1:
+                    add("chall-post-after-hooks", shape + "|other-token", "a challenge is declared ready only after the hooks received *its* token and proof",
+                        "challenge POST for authorization %s (%s, token %s) but no hook run carried that token's values" % (e.get("authz"), ctype, e["token"][:12]))
+                    continue
             if not mine:
                 add("chall-post-after-hooks", shape, "the CA is told a challenge is ready only after its hooks ran", "challenge POST for authorization %s (%s) without a preceding %s hook" % (e.get("authz"), ctype, ctype))
             elif any(h.get("answer", "ok") not in ("ok", "exit:0") for h in mine):
@@ -178,26 +190,34 @@ def judge(req, obs):
         tags = [h["tag"] for h in hs]
         if not tags and abort_cause:
             continue  # the attempt legitimately ended at another authorization: whether this one was reached is not prescribed
-        if tags != ["chal-" + want_type]:
+        # a CA may list several challenges of the configured type (different tokens): the daemon may answer one of them or each of them,
+        # one hook run per challenge it answers
+        same_type = [c for c in a["challs"] if c["type"] == want_type]
+        if not tags or any(t != "chal-" + want_type for t in tags) or len(tags) > len(same_type):
             add("hook-type=configured", shape + "|%s" % ("wildcard-authz" if a["wildcard"] else "plain-authz"),
-                "authorization for %s solved with the configured %s hooks (once)" % (key, want_type), "hooks run: %s" % tags)
+                "authorization for %s solved with the configured %s hooks (once per answered challenge)" % (key, want_type), "hooks run: %s" % tags)
             continue
-        h = hs[0]
-        args = dict(x.split("=", 1) for x in h.get("argv", []) if "=" in x)
-        ch = [c for c in a["challs"] if c["type"] == want_type][0]
-        exp = expected_proof(want_type, ch["token"], thumbs.get(a["acct"], "?"))
-        exp["challenge"] = want_type
-        exp["is_clean_hook"] = "false"
-        if want_type == "tls-alpn-01" and not a["wildcard"]:
-            # (RFC 8737 does not validate wildcard names: nothing is prescribed for them)
-            exp["identifier_tls_alpn"] = tls_alpn_name(a["value"])
-        if not a["wildcard"]:
-            exp["identifier"] = a["value"]
-        for k, v in exp.items():
-            if args.get(k) != v:
-                add("proof-values", "%s|%s|kt=%s" % (want_type, k, m.get("kt") or "default"), "%s = %r" % (k, v), "%r" % args.get(k))
-        if a["wildcard"] and args.get("identifier") not in (a["value"], "*." + a["value"]):
-            add("proof-values", "%s|identifier|wildcard" % want_type, "identifier names the authorization's domain", "%r" % args.get("identifier"))
+        used = set()
+        for h in hs:
+            args = dict(x.split("=", 1) for x in h.get("argv", []) if "=" in x)
+            # the challenge this hook run is for: the one whose expected values it carries, else the first not yet used
+            exps = [(c, expected_proof(want_type, c["token"], thumbs.get(a["acct"], "?"))) for c in same_type]
+            match = [c for c, e in exps if e["proof"] == args.get("proof") and e["file_name"] == args.get("file_name", "") and c["token"] not in used]
+            ch = match[0] if match else next((c for c in same_type if c["token"] not in used), same_type[0])
+            used.add(ch["token"])
+            exp = expected_proof(want_type, ch["token"], thumbs.get(a["acct"], "?"))
+            exp["challenge"] = want_type
+            exp["is_clean_hook"] = "false"
+            if want_type == "tls-alpn-01" and not a["wildcard"]:
+                # (RFC 8737 does not validate wildcard names: nothing is prescribed for them)
+                exp["identifier_tls_alpn"] = tls_alpn_name(a["value"])
+            if not a["wildcard"]:
+                exp["identifier"] = a["value"]
+            for k, v in exp.items():
+                if args.get(k) != v:
+                    add("proof-values", "%s|%s|kt=%s" % (want_type, k, m.get("kt") or "default"), "%s = %r" % (k, v), "%r" % args.get(k))
+            if a["wildcard"] and args.get("identifier") not in (a["value"], "*." + a["value"]):
+                add("proof-values", "%s|identifier|wildcard" % want_type, "identifier names the authorization's domain", "%r" % args.get("identifier"))
     return out
 
 
@@ -241,6 +261,10 @@ def run(ctx):
         for nth in range(len(S)):
             for ans in ("exit:1", "exit:255", "signal:9", "signal:15"):  # "succeeded" = exit code 0, not "no non-zero code"
                 reqs.append(make_req(S, script=[{"kind": "hook", "tag_prefix": "chal-", "nth_hook": nth, "answer": ans}], tag="hook-exit"))
+    # a CA that lists several challenges of one type per authorization (different tokens)
+    for S in (S1, S2):
+        for dup in (["http-01", "http-01", "dns-01", "dns-01", "tls-alpn-01", "tls-alpn-01"], ["dns-01", "http-01", "tls-alpn-01", "http-01", "tls-alpn-01", "dns-01"]):
+            reqs.append(make_req(S, ca={"offered": {"*": dup}}, tag="offered-twice"))
     # several accounts in one daemon process: each certificate's proofs come from its own account's key (2 and 3 accounts, 7 key types)
     for n in (2, 3):
         reqs.append(make_req(S2[:n], accounts=n, tag="accounts"))
